@@ -16,7 +16,10 @@ public:
 template<>
 SafeInt Converter<SafeInt>::getValue(Number const & val) {
     assert(val.isInteger());
-    return SafeInt(static_cast<ptrdiff_t>(val.get_d()));
+    static_assert(sizeof(long) == sizeof(ptrdiff_t));
+    mpz_class const num = val.getMpq().get_num(); // Exact for every magnitude; a round trip through double is not beyond 2^53
+    if (not num.fits_slong_p()) { throw std::overflow_error("Constant does not fit the number type of integer difference logic"); }
+    return SafeInt(num.get_si());
 }
 
 template<>
